@@ -237,7 +237,8 @@ def uses_f32(spec):
 def tol_close(real, exact_value, magnitude, f32=False):
     eps = EPS32 if f32 else EPS
     m = max(abs(Fraction(magnitude)), abs(Fraction(exact_value)))
-    return abs(exact(real) - Fraction(exact_value)) <= 4 * K * Fraction(eps) * m + Fraction(1, 10 ** 300)
+    floor_ = Fraction(1, 10 ** 37) if f32 else Fraction(1, 10 ** 300)   # below: float32 denormals
+    return abs(exact(real) - Fraction(exact_value)) <= 4 * K * Fraction(eps) * m + floor_
 
 
 def compare_values(impl_vs, model_vs, M, f32, pre=None):
